@@ -73,6 +73,10 @@ CHECKS["C07"] = dict(engine="wire", cat="exploration",
    text="histories over {request(6 addressee classes, optionally re-entering the client from the continuation), reply(result/error/malformed/request-with-same-id, outstanding or unknown id, 10 sender classes, once/twice), resumable connection loss, disconnect, reconnect (resumed/new)} with up to 4 requests outstanding: exhaustive words of length <= 3 (quick) / 4 (thorough) over a 16-letter alphabet plus 20000 / 10^6 random words up to length 30, each closed by a non-resumable end; each task's continuation count, value and completion segment are compared with a request model (accept = addressee or absent from; case variants and own domain not judged) under ASan/UBSan",
    note="a stanza without from counts as coming from the user's own server; requests issued while disconnected are not modelled; the bundled managers' request APIs are only covered through raw IQs",
    tech="runtime monitoring: exactly-once counters + executable request model over recorded call/return histories of a real client session, sanitizers for re-entrancy")
+CHECKS["C09"] = dict(engine="wire", cat="exploration",
+   text="histories over {send message/presence with unique markers, server <a h/> (exact, minus one, stale, zero, beyond), server <r/>, deliver message/presence/iq/nonza/two stanzas, connection loss, resume accepted with h all/some/none/stale, resume refused then new session with or without stream management}: two sends followed by every word of length <= 3 (quick) / 4 (thorough) over a 13-letter alphabet, plus random words up to length 40; the fake server keeps its own XEP-0198 counters and decides which acks it delivers; oracle: 'acknowledged' only for positions covered by a delivered ack, no report twice, retransmissions on a resumed/new session are exactly the uncovered stanzas in original order before newer ones, covered ones never come again, every <a h/> and <resume h/> equals the number of stanzas delivered on that session",
+   note="after an ack that is inconsistent by construction (beyond what was sent / below what was acked) retransmission expectations of that history are not judged; sending while disconnected is not modelled",
+   tech="runtime monitoring: offline checker over the recorded wire transcript with unique markers against a server-side XEP-0198 reference (ordering, conservation, exactly-once), under ASan/UBSan")
 REASON_TODO = "check not built yet in this session (planned, see DESIGN.md §2)"
 
 def main():
